@@ -1,10 +1,10 @@
 (** C05 — strong handles keep an actor alive, weak never do; last drop drains, then stops.
     Statements only; proofs live in Inv/. The model keeps, per actor, the number of references
     to the waiting submit closure ([a_tx]) and to the forcing one ([a_ftx]); the theorems say who
-    is counted and what the counts decide. [partial]: the accounting invariant "a_tx is at least
-    the number of strong handles in the table, in every reachable state" is not proved here —
-    the counts are compared with the implementation's answers on every trace instead. *)
-From Hannibal Require Import Model.Sys Inv.C05 Inv.C04.
+    is counted, what the counts decide, and — by the accounting invariant of Inv/Refs.v, proved
+    for every reachable state — that an actor some strong handle (or the registry) points to is
+    always counted. *)
+From Hannibal Require Import Model.Sys Inv.C05 Inv.C04 Inv.Refs Inv.Refs2.
 
 (** every new handle of a strong kind is counted on the waiting closure, a weak one on nothing *)
 Theorem C05_strong_counted_weak_not :
@@ -41,3 +41,34 @@ Theorem C05_last_drop_drains_then_stops :
   a_queue x = [] /\ a_tx x = 0 /\ a_ftx x = 0 /\ a_inflight x = 0.
 Proof. exact closed_exit_drained. Qed.
 Print Assumptions C05_last_drop_drains_then_stops.
+
+(** The accounting invariant, for every trace the model accepts from its initial state: the
+    count of references to an actor's waiting closure covers every holder on record — each strong
+    handle in the table (Addr, OwningAddr, Sender, Caller, their clones, a parent's child list),
+    each client operation under way that holds a transient reference, each parked timer, the
+    registry. *)
+Theorem C05_accounting_invariant :
+  forall tr s, run init tr = Acc s -> exists g, refs_inv s g.
+Proof. intros tr s H. exact (refs_run _ _ _ _ refs_init H). Qed.
+Print Assumptions C05_accounting_invariant.
+
+(** Hence: in every reachable state, an actor that any strong handle points to has a non-zero
+    count — its weak handles upgrade, its mailbox is not closed ... *)
+Theorem C05_strong_handle_keeps_alive :
+  forall tr s h a k x, run init tr = Acc s -> handles s h = Some (a, k) -> is_weak k = false ->
+  actors s a = Some x -> upgradable x = true /\ force_alive x = true /\ closed x = false.
+Proof. exact strong_handle_keeps_functional. Qed.
+Print Assumptions C05_strong_handle_keeps_alive.
+
+(** ... so an actor nobody stopped never takes the closed-mailbox exit while a strong handle to it
+    exists: when it does take it, every handle left is weak; and the registry counts as well. *)
+Theorem C05_no_exit_while_strongly_held :
+  forall tr s a s' x, run init tr = Acc s -> step s (EvCbBegin a CbStopped) = Acc s' -> actors s a = Some x ->
+  a_phase x = PhIdle -> forall h k, handles s h = Some (a, k) -> is_weak k = true.
+Proof. exact no_closed_exit_while_held. Qed.
+Print Assumptions C05_no_exit_while_strongly_held.
+
+Theorem C05_registry_keeps_alive :
+  forall tr s ty a x, run init tr = Acc s -> reg s ty = Some a -> actors s a = Some x -> 1 <= a_tx x.
+Proof. exact registered_means_referenced. Qed.
+Print Assumptions C05_registry_keeps_alive.
